@@ -252,11 +252,11 @@ fn parse_duration<V: AsRef<str> + Into<String>>(
         Err(e) => return Err(TypedResponseError::invalid_value(field, value.into()).source(e)),
     };
 
-    // Check if the parsed value is a reasonable duration, to avoid a panic from `from_secs_f64`
-    if v >= 0.0 && v <= Duration::MAX.as_secs_f64() && v.is_finite() {
-        Ok(Duration::from_secs_f64(v))
-    } else {
-        Err(TypedResponseError::invalid_value(field, value.into()))
+    // Negative, non-finite and too large values are errors. (Comparing against
+    // `Duration::MAX.as_secs_f64()` is not enough: that rounds up to 2^64, which is out of range.)
+    match Duration::try_from_secs_f64(v) {
+        Ok(d) => Ok(d),
+        Err(e) => Err(TypedResponseError::invalid_value(field, value.into()).source(e)),
     }
 }
 
